@@ -370,6 +370,12 @@ pub fn history_tree_j(c: &Collector, prop: &'static str, geom: (u32, u32), ops: 
         hidden_cursor: false,
     };
     let tseeds = gen_bases(c, &tseed);
+    history_tree_from(c, prop, tseeds, ops, depth, also)
+}
+
+/// the tree grown from given base states (content already on the screen, cursor where it matters)
+pub fn history_tree_from(c: &Collector, prop: &'static str, tseeds: Vec<Base>, ops: Vec<Op>, depth: usize, also: &(dyn Fn(&Op) -> bool + Sync)) {
+    let geom = tseeds.first().map(|b| (b.columns, b.lines)).unwrap_or((0, 0));
     let st = crate::explore::bfs_nd(
         c,
         &tseeds,
